@@ -149,6 +149,17 @@ func (w *c09world) issue(k c09call) {
 			defer func() { _ = recover() }()
 			l.LogAttrs(bg, sev, "a value panics\nsecond line", "a", 1, slog.Group("peer", "x", 1, slog.Group("in", "v", panicV{}, "w", 2)), "z", 3)
 		}()
+	case "value-panics-x9":
+		// nine calls in a row that do not complete (each recovered by its caller)
+		prev := vsync.NoPoolChoice
+		vsync.NoPoolChoice = true
+		for i := 0; i < 9; i++ {
+			func() {
+				defer func() { _ = recover() }()
+				l.WriteThru(bg, sev, fixedTime, 0, "a value panics", slog.Attrs{slog.NewAttr("a", i), slog.Group("peer", "v", panicV{}), slog.NewAttr("z", 3)})
+			}()
+		}
+		vsync.NoPoolChoice = prev
 	case "verb-scoped-flags":
 		// the verb path while the path-privacy and caller flags are toggled inside a SaveFlagsAndMod scope
 		var restore func()
@@ -177,8 +188,11 @@ func c09calls(thorough bool) (hist, probes []c09call) {
 	// history alphabet: a representative subset issued on the probed logger, a sibling and the default logger
 	for _, f := range []string{"color", "json", "logfmt"} {
 		for _, s := range []slog.Level{slog.ErrorLevel, c09Colored, slog.TraceLevel} {
-			for _, sh := range []string{"rich", "rich-eol", "egroup", "verb", "verb-small", "plain", "reent", "verb-scoped-flags", "value-panics", "zone-instant", "huge", "egroup-x17"} {
+			for _, sh := range []string{"rich", "rich-eol", "egroup", "verb", "verb-small", "plain", "reent", "verb-scoped-flags", "value-panics", "zone-instant", "huge", "egroup-x17", "value-panics-x9"} {
 				if sh == "egroup-x17" && (s != slog.ErrorLevel || !thorough && f != "json") {
+					continue
+				}
+				if sh == "value-panics-x9" && (s != slog.ErrorLevel || !thorough && f != "logfmt") {
 					continue
 				}
 				if sh == "huge" && (s != slog.ErrorLevel || !thorough && f != "color") {
@@ -200,6 +214,9 @@ func c09calls(thorough bool) (hist, probes []c09call) {
 					continue
 				}
 				for _, tg := range []string{"probed", "sibling", "default"} {
+					if !thorough && sh == "value-panics-x9" && tg != "probed" {
+						continue
+					}
 					if !thorough && (sh == "huge" || sh == "egroup-x17") && tg != "sibling" {
 						continue
 					}
@@ -311,7 +328,7 @@ func c09run(c *Ctx) {
 			if len(p) == 2 && h.Shape != "rich" && h.Shape != "reent" && h.Shape != "value-panics" && h.Shape != "zone-instant" && h.Shape != "verb-scoped-flags" && h.Shape != "verb" && h.Shape != "verb-small" && h.Shape != "egroup" && h.Shape != "rich-eol" {
 				continue // third history element: the shapes that touch the most state
 			}
-			if !c.Thorough() && len(p) == 1 && (h.Shape == "huge" || h.Shape == "egroup-x17" || h.Target == "kid") {
+			if !c.Thorough() && len(p) == 1 && (h.Shape == "huge" || h.Shape == "egroup-x17" || h.Shape == "value-panics-x9" || h.Target == "kid") {
 				continue // quick: these only as the first element of a history
 			}
 			if !c.Thorough() && len(p) == 1 && (h.Shape == "plain" || (h.Shape == "rich" || h.Shape == "rich-eol" || h.Shape == "egroup") && h.Target != "probed" || slog.Level(h.Sev) == slog.TraceLevel) {
